@@ -1,10 +1,118 @@
 import Driver.Index
 import Driver.IndexRows
-/- C37 handlers (event replay) -/
+import Driver.IxMiscC17
+import OrdModel.Index.Replay
+/- C37 handlers (event replay): `ix.oracle.replay` (see harness/ix_misc/src/c37.rs).
+
+  ix.oracle.replay <cumulative implementation events, '|'-separated>
+     ## <chain: one row per block `<height> <ntx> {<txid> <nin> {<prev-txid>:<vout>} <opreturn flags|->}`>
+     ## <implementation `ins` rows> ## <implementation `runes` rows> ## <UnboundInscriptions>
+
+The handler parses the event text (`renderEvent` format), rebuilds a skeleton chain (txid,
+inputs, OP_RETURN flag per output), runs `Ord.Index.replay` (the function the C37 theorems are
+about) and compares with the projection read from the implementation's own dump rows. -/
 namespace Driver.IxMiscC37
 open Ord Ord.Index Driver.Index
 
-def handle (_s : S) : List String → Option String
+def parseOutPoint (s : String) : Option OutPoint :=
+  match s.splitOn ":" with
+  | [t, v] => do some ⟨← parseHexNat t, ← v.toNat?⟩
+  | _ => none
+
+def parseSatPoint (s : String) : Option SatPoint :=
+  match s.splitOn ":" with
+  | [t, v, o] => do some ⟨⟨← parseHexNat t, ← v.toNat?⟩, ← o.toNat?⟩
+  | _ => none
+
+def parseInsId (s : String) : Option InscriptionId :=
+  match s.splitOn "i" with
+  | [t, n] => do some ⟨← parseHexNat t, ← n.toNat?⟩
+  | _ => none
+
+/-- one event in `renderEvent` / `env::render_event` text, already split into tokens -/
+def parseEvent (r : List String) : Option Event :=
+  let f := fun k => Driver.Rows.field k r
+  let n := fun k => Driver.Rows.fieldNat k r
+  match r with
+  | "InscriptionCreated" :: _ => do
+    let loc ← f "loc"
+    let loc ← if loc == "-" then some none else (parseSatPoint loc).map some
+    let parents ← (Driver.Rows.commaList (← f "parents")).mapM parseInsId
+    some (.inscriptionCreated (← n "h") (← n "charms") (← (f "id").bind parseInsId) loc parents (← n "seq"))
+  | "InscriptionTransferred" :: _ => do
+    some (.inscriptionTransferred (← n "h") (← (f "id").bind parseInsId) (← (f "new").bind parseSatPoint)
+      (← (f "old").bind parseSatPoint) (← n "seq"))
+  | "RuneBurned" :: _ => do
+    some (.runeBurned (← n "amount") (← n "h") (← (f "rune").bind parseRuneId) (← (f "txid").bind parseHexNat))
+  | "RuneEtched" :: _ => do
+    some (.runeEtched (← n "h") (← (f "rune").bind parseRuneId) (← (f "txid").bind parseHexNat))
+  | "RuneMinted" :: _ => do
+    some (.runeMinted (← n "amount") (← n "h") (← (f "rune").bind parseRuneId) (← (f "txid").bind parseHexNat))
+  | "RuneTransferred" :: _ => do
+    some (.runeTransferred (← n "amount") (← n "h") (← (f "outpoint").bind parseOutPoint)
+      (← (f "rune").bind parseRuneId) (← (f "txid").bind parseHexNat))
+  | _ => none
+
+def parsePrev : List String → Option (TxIn × List String)
+  | p :: rest => do some (⟨← parseOutPoint p, false, none, []⟩, rest)
+  | _ => none
+
+/-- `<txid> <nin> {prev} <flags|->` -/
+def parseSkelTx : List String → Option (Tx × List String)
+  | txid :: nin :: rest => do
+    let (ins, rest) ← takeN 0 parsePrev (← nin.toNat?) rest []
+    match rest with
+    | flags :: rest =>
+      let outs : List TxOut := if flags == "-" then [] else flags.toList.map (fun c => ⟨0, c == '1', []⟩)
+      some (⟨← parseHexNat txid, ins, outs, [], none, 0⟩, rest)
+    | _ => none
+  | _ => none
+
+def parseSkelBlock : List String → Option Block
+  | h :: ntx :: rest => do
+    let (txs, rest) ← takeN 0 parseSkelTx (← ntx.toNat?) rest []
+    if rest.isEmpty then some ⟨← h.toNat?, 0, 0, 0, txs⟩ else none
+  | _ => none
+
+def parseBalRow (s : String) : Option (List (RuneId × Nat)) :=
+  (Driver.Rows.commaList s).mapM (fun p => match p.splitOn "=" with
+    | [id, a] => do some (← parseRuneId id, ← a.toNat?)
+    | _ => none)
+
+/-- the projection (`Ord.Index.project`) read from the implementation's dump rows -/
+def projectRows (ins runes : List (List String)) (unbound : Nat) : Option ReplayState := do
+  let loc ← (Driver.Rows.withHead "seq2satpoint" ins).mapM (fun r => match r with
+    | [s, sp] => do some (← s.toNat?, ← parseSatPoint sp)
+    | _ => none)
+  let entries ← (Driver.Rows.withHead "entry" ins).mapM (fun r => match r with
+    | s :: rest => do
+      some (← s.toNat?, ← Driver.Rows.fieldNat "charms" rest, ← (Driver.Rows.field "id" rest).bind parseInsId)
+    | _ => none)
+  let rs ← (Driver.Rows.withHead "rune" runes).mapM (fun r => match r with
+    | id :: rest => do
+      some (← parseRuneId id, ← Driver.Rows.fieldNat "mints" rest, ← Driver.Rows.fieldNat "burned" rest)
+    | _ => none)
+  let bal ← (Driver.Rows.withHead "balances" runes).mapM (fun r => match r with
+    | [op, row] => do some (← parseOutPoint op, ← parseBalRow row)
+    | _ => none)
+  some { loc := loc, charms := entries.map (fun e => (e.1, e.2.1)), ids := entries.map (fun e => (e.1, e.2.2)),
+         unbound := unbound, runes := rs.map (·.1), mints := rs.map (fun r => (r.1, r.2.1)),
+         burned := rs.map (fun r => (r.1, r.2.2)), balances := bal, leftover := 0 }
+
+def handle (s : S) : List String → Option String
+  | "ix.oracle.replay" :: ts =>
+    match Driver.IxMiscC17.splitSections ts with
+    | [e, c, i, r, [u]] =>
+      match (Driver.Rows.rows e).mapM parseEvent, (Driver.Rows.rows c).mapM parseSkelBlock,
+            projectRows (Driver.Rows.rows i) (Driver.Rows.rows r) (u.toNat?.getD 0), u.toNat? with
+      | some evs, some chain, some proj, some _ =>
+        let rs := replay s.cfg evs chain
+        if rs.agrees proj then some "true" else some s!"false {rs.diff proj}"
+      | none, _, _, _ => some "bad-events"
+      | _, none, _, _ => some "bad-chain"
+      | _, _, none, _ => some "bad-rows"
+      | _, _, _, none => some "bad-unbound"
+    | _ => some "bad-op"
   | _ => none
 
 end Driver.IxMiscC37
